@@ -193,80 +193,108 @@ def clearMouseMode (s : Screen) (m : MouseMode) : Screen :=
 def clearMouseEnc (s : Screen) (e : MouseEnc) : Screen :=
   if s.mouseEnc == e then { s with mouseEnc := .default } else s
 
-/-! ### `text` -/
+/-! ### `text`
 
-/-- append `c` to the cell at `pos`, or to the one before it when `pos` holds a
+`Screen::text` reads `self.attrs` and otherwise works on `self.grid_mut()`
+throughout (the active grid cannot change in between), so it is modelled as one
+grid-level function applied through `modifyGrid`. -/
+
+end Screen
+
+namespace Grid
+
+/-- append `c` to the cell at `(row, col)`, or to the one before it when that cell is a
 wide continuation (`prev_cell` dance of the zero-width branch) -/
-def appendToPrev (s : Screen) (row col : Nat) (c : Nat) : M Screen := do
-  let g := s.cur
+def appendToPrev (g : Grid) (row col : Nat) (c : Nat) : M Grid := do
   let prevCell ← g.drawingCellM 510 ⟨row, col⟩
   if prevCell.isWideContinuation then do
     let c2 ← subM 511 col 1
-    s.modifyGrid (fun g => g.modifyCellM 512 ⟨row, c2⟩ (fun cell => cell.append c))
+    g.modifyCellM 512 ⟨row, c2⟩ (fun cell => cell.append c)
   else
-    s.modifyGrid (fun g => g.modifyCellM 513 ⟨row, col⟩ (fun cell => cell.append c))
+    g.modifyCellM 513 ⟨row, col⟩ (fun cell => cell.append c)
 
-def text (W : Nat → Option Nat) (s : Screen) (c : Nat) : M Screen := do
-  let pos := s.cur.pos
-  let size := s.cur.size
-  let attrs := s.attrs
+/-- the zero-width branch of `text`, after `col_wrap` -/
+def textZero (g : Grid) (c : Nat) : M Grid :=
+  let pos := g.pos
+  let size := g.size
+  if pos.col > 0 then
+    g.appendToPrev pos.row (pos.col - 1) c
+  else if pos.row > 0 then do
+    let prevRow ← match g.drawingRow (pos.row - 1) with
+      | some r => pure r
+      | none => panic 523
+    if prevRow.wrapped then do
+      let c1 ← subM 524 size.cols 1
+      g.appendToPrev (pos.row - 1) c1 c
+    else pure g
+  else pure g
+
+/-- the branch of `text` for a character of width 1 or 2, after `col_wrap` -/
+def textWide (W : Nat → Option Nat) (g : Grid) (attrs : Attrs) (c width : Nat) : M Grid := do
+  let pos := g.pos
+  let size := g.size
+  let cell0 ← g.drawingCellM 530 pos
+  let g ←
+    if cell0.isWideContinuation then do
+      let c1 ← subM 531 pos.col 1
+      g.modifyCellM 532 ⟨pos.row, c1⟩ (fun cell => pure (cell.clear attrs))
+    else pure g
+  let cell1 ← g.drawingCellM 533 pos
+  let g ←
+    if cell1.isWide then
+      g.modifyCellM 534 ⟨pos.row, pos.col + 1⟩ (fun cell => cell.set W 32 attrs)
+    else pure g
+  let g ← g.modifyCellM 535 pos (fun cell => cell.set W c attrs)
+  let g := g.colInc 1
+  if width > 1 then do
+    let pos := g.pos
+    let cell2 ← g.drawingCellM 536 pos
+    let g ←
+      if cell2.isWide then do
+        let nn : Pos := ⟨pos.row, pos.col + 1⟩
+        let g ← g.modifyCellM 537 nn (fun cell => pure (cell.clear attrs))
+        if nn.col + 1 == size.cols then do
+          let rows ← modifyM 538 g.rows pos.row (fun r => pure (r.wrap false))
+          pure { g with rows := rows }
+        else pure g
+      else pure g
+    let g ← g.modifyCellM 539 pos
+      (fun cell => pure ((cell.clear Attrs.default).setWideContinuation true))
+    pure (g.colInc 1)
+  else pure g
+
+def text (W : Nat → Option Nat) (g : Grid) (attrs : Attrs) (c : Nat) : M Grid := do
+  let pos := g.pos
+  let size := g.size
   let width := W c
-  if width.isNone && c < 256 then pure s
+  if width.isNone && c < 256 then pure g
   else do
     let width := width.getD 1
-    if width > size.cols then pure s else
+    if width > size.cols then pure g else
     let lim ← subM 520 size.cols width
     let wrap ←
       if pos.col > lim then do
         let c1 ← subM 521 size.cols 1
-        let lastCell ← s.cur.drawingCellM 522 ⟨pos.row, c1⟩
+        let lastCell ← g.drawingCellM 522 ⟨pos.row, c1⟩
         pure (lastCell.hasContents || lastCell.isWideContinuation)
       else pure false
-    let s ← s.modifyGrid (fun g => g.colWrap width wrap)
-    let pos := s.cur.pos
-    if width == 0 then
-      if pos.col > 0 then
-        s.appendToPrev pos.row (pos.col - 1) c
-      else if pos.row > 0 then do
-        let prevRow ← match s.cur.drawingRow (pos.row - 1) with
-          | some r => pure r
-          | none => panic 523
-        if prevRow.wrapped then do
-          let c1 ← subM 524 size.cols 1
-          s.appendToPrev (pos.row - 1) c1 c
-        else pure s
-      else pure s
-    else do
-      let cell0 ← s.cur.drawingCellM 530 pos
-      let s ←
-        if cell0.isWideContinuation then do
-          let c1 ← subM 531 pos.col 1
-          s.modifyGrid (fun g => g.modifyCellM 532 ⟨pos.row, c1⟩ (fun cell => pure (cell.clear attrs)))
-        else pure s
-      let cell1 ← s.cur.drawingCellM 533 pos
-      let s ←
-        if cell1.isWide then
-          s.modifyGrid (fun g => g.modifyCellM 534 ⟨pos.row, pos.col + 1⟩ (fun cell => cell.set W 32 attrs))
-        else pure s
-      let s ← s.modifyGrid (fun g => g.modifyCellM 535 pos (fun cell => cell.set W c attrs))
-      let s ← s.modifyGrid (fun g => pure (g.colInc 1))
-      if width > 1 then do
-        let pos := s.cur.pos
-        let cell2 ← s.cur.drawingCellM 536 pos
-        let s ←
-          if cell2.isWide then do
-            let nn : Pos := ⟨pos.row, pos.col + 1⟩
-            let s ← s.modifyGrid (fun g => g.modifyCellM 537 nn (fun cell => pure (cell.clear attrs)))
-            if nn.col + 1 == size.cols then
-              s.modifyGrid (fun g => do
-                let rows ← modifyM 538 g.rows pos.row (fun r => pure (r.wrap false))
-                pure { g with rows := rows })
-            else pure s
-          else pure s
-        let s ← s.modifyGrid (fun g => g.modifyCellM 539 pos
-          (fun cell => pure ((cell.clear Attrs.default).setWideContinuation true)))
-        s.modifyGrid (fun g => pure (g.colInc 1))
-      else pure s
+    let g ← g.colWrap width wrap
+    if width == 0 then g.textZero c else g.textWide W attrs c width
+
+def cnl (g : Grid) (n : Nat) : M Grid := do
+  let g ← g.colSet 0
+  g.rowIncClamp n
+
+def cpl (g : Grid) (n : Nat) : M Grid := do
+  let g ← g.colSet 0
+  pure (g.rowDecClamp n)
+
+end Grid
+
+namespace Screen
+
+def text (W : Nat → Option Nat) (s : Screen) (c : Nat) : M Screen :=
+  s.modifyGrid (fun g => g.text W s.attrs c)
 
 /-! ### control codes, escape codes, CSI without callbacks -/
 
@@ -286,12 +314,8 @@ def cuu (s : Screen) (n : Nat) : M Screen := s.modifyGrid (fun g => pure (g.rowD
 def cud (s : Screen) (n : Nat) : M Screen := s.modifyGrid (fun g => g.rowIncClamp n)
 def cuf (s : Screen) (n : Nat) : M Screen := s.modifyGrid (fun g => g.colIncClamp n)
 def cub (s : Screen) (n : Nat) : M Screen := s.modifyGrid (fun g => pure (g.colDec n))
-def cnl (s : Screen) (n : Nat) : M Screen := do
-  let s ← s.modifyGrid (fun g => g.colSet 0)
-  s.modifyGrid (fun g => g.rowIncClamp n)
-def cpl (s : Screen) (n : Nat) : M Screen := do
-  let s ← s.modifyGrid (fun g => g.colSet 0)
-  s.modifyGrid (fun g => pure (g.rowDecClamp n))
+def cnl (s : Screen) (n : Nat) : M Screen := s.modifyGrid (fun g => g.cnl n)
+def cpl (s : Screen) (n : Nat) : M Screen := s.modifyGrid (fun g => g.cpl n)
 def cha (s : Screen) (col : Nat) : M Screen := do
   let c ← subM 540 col 1
   s.modifyGrid (fun g => g.colSet c)
